@@ -185,6 +185,10 @@ let judge _id (c : cursor) (r : cursor) : bool * string =
             disagree "csbb_row.values" site "model and implementation vectors differ"
         done;
         let ia = next_int r in let _iobs = next_nats r in let ival = q_of_float (float_of_string (next r)) in
+        (* O: the best-action backup's value is the full one-step look-ahead of w at b (spec function
+           lookahead_best, independent of the backup code; theorem best_action_backup_value) *)
+        if not (closeq (lookahead_best m w b) ival) then
+          oracle_fail "best_action_backup_value" site "best value is not the maximum over all actions of the one-step look-ahead of the previous surface";
         let (me, mv) = csbb_all m w b in
         if not (same mv ival) then disagree "csbb_all.value" site "best value differs";
         if exact && int_of_nat me.act <> ia then disagree "csbb_all.action" site "best action differs") bs;
